@@ -511,11 +511,22 @@ ConnRelease(r) ==
           /\ cexp' = [cexp EXCEPT ![c] = IF Expiry = NoExpiry THEN NoExpiry ELSE clock + Expiry]
           /\ cexch' = [cexch EXCEPT ![c] = "clean"]
           /\ UNCHANGED cstr
-     ELSE /\ cst' = [cst EXCEPT ![c] = "closed"]
-          /\ cstr' = [cstr EXCEPT ![c] = IF @ = "open" THEN "closed" ELSE @]
-          /\ UNCHANGED <<cfg, cexp, cexch>>
+     ELSE \/ /\ cst' = [cst EXCEPT ![c] = "closed"]
+             /\ cstr' = [cstr EXCEPT ![c] = IF @ = "open" THEN "closed" ELSE @]
+             /\ UNCHANGED <<cfg, cexp, cexch>>
+          \/ \* DEVIATION ActivateEvicted, continued: the connection was closed UNDER the request by
+             \* the thread that had evicted it, but everything had been read already; the release
+             \* looks only at the HTTP/1.1 parser (both sides DONE) and marks the closed connection
+             \* IDLE again
+             /\ Dev("ActivateEvicted") /\ clean /\ cst[c] = "closed"
+             /\ cst' = [cst EXCEPT ![c] = "idle"]
+             /\ cexp' = [cexp EXCEPT ![c] = IF Expiry = NoExpiry THEN NoExpiry ELSE clock + Expiry]
+             /\ cexch' = [cexch EXCEPT ![c] = "clean"]
+             /\ UNCHANGED cstr
   /\ pc' = [pc EXCEPT ![r] = "leave"]
-  /\ UNCHANGED <<cfg, pool, nextc, corg, cmux, cdead, cerr, ccnt, cwire, evicted, queue, asg, tocl, nxt, exc, creq, sent, got, wdl, clock, budget, pclosed>>
+  \* (a closed connection that is marked IDLE again - ActivateEvicted - has a closed, i.e. readable, socket)
+  /\ cdead' = [cdead EXCEPT ![asg[r]] = @ \/ (cst[asg[r]] = "closed" /\ cst'[asg[r]] = "idle")]
+  /\ UNCHANGED <<cfg, pool, nextc, corg, cmux, cerr, ccnt, cwire, evicted, queue, asg, tocl, nxt, exc, creq, sent, got, wdl, clock, budget, pclosed>>
 
 (***************************************************************************)
 (* Leaving the pool: response closed (pool 409-420) or exception handler   *)
